@@ -59,6 +59,7 @@ def run(ck, m):
     one_mode_rule(ck, m)
     loader_is_read_only(ck, m)
     value_appended_before_its_key_record(ck, m)
+    old_key_file_set_aside_before_the_value_file_goes(ck, m)
 
 
 def _run(ck, m):
@@ -563,3 +564,23 @@ def value_appended_before_its_key_record(ck, m, rule='C11.l'):
           'each of the %d key-record writes follows the append of its value record' % n if n > 0 and not bad else
           'a key record is written before the value record it points at is appended: %s' % sorted(set(bad)), '%s:%s' % (wb.file, wb.line))
     ck.floor(rule, n, 2, 'key-record writes of the snapshot writer')
+
+
+def old_key_file_set_aside_before_the_value_file_goes(ck, m, rule='C11.m'):
+    """C11.m — see RULES"""
+    P = m.prog
+    ck.rule(rule, 'a reclaiming snapshot sets the old key file aside before it destroys the old value file: in the snapshot writer the call that opens '
+                  '(and, when reclaiming, renames) the key file dominates the call that opens (and, when reclaiming, deletes and re-creates) the '
+                  'value file — the other way round, a kill between the two leaves the complete old key file pointing into an empty value file')
+    wr = [b for b in P.user_bodies() if b.id.endswith('NodeDrive::storage_data_disk')]
+    if not wr:
+        ck.undecided(rule, 'writer', 'anchor', 'disk snapshot writer not found')
+        return
+    wb = wr[0]
+    ko = [bi for bi, t in wb.calls() if callee(t).split('::')[-1] == 'get_key_file_append_mode']
+    vo = [bi for bi, t in wb.calls() if callee(t).split('::')[-1] == 'get_values_file_append_mode']
+    okf = bool(ko) and bool(vo) and all(any(wb.dominates(k, v) for k in ko) for v in vo)
+    ck.ob(rule, short(wb.id), 'key-file-set-aside-first', okf,
+          'the key file is opened / renamed before the value file is opened / emptied' if okf else
+          'the value file is opened (emptied when reclaiming) at %s before the key file is set aside at %s' % ([wb.loc(v) for v in vo], [wb.loc(k) for k in ko]),
+          '%s:%s' % (wb.file, wb.line))
